@@ -19,10 +19,13 @@ def check(ctx, rep):
     flag = B.rule_stop(m, rep)
     B.rule_run_exit(m, rep, flag)
     B.rule_same_sender(m, rep)
+    # one stop request ends one loop: there is exactly one worker to stop (build() spawns one, the sentinel replaces it)
+    from .common import KeepOnly
+    A.rule_one_consumer(m, KeepOnly(rep, ('build-spawns-once', 'spawn-one-thread', 'spawn-sites'), 'R2w'), 'R2w', parts=('callers',))
     A.rule_loop(m, rep, 'R3loop', liveness=True)
     # whatever the wrapped sink answers, the task hands the metric over once and comes back (no retry loop)
     A.rule_task_closure(m, rep, 'R3loop', parts=('once',))
     B.rule_release(m, rep)
     B.rule_drop_nonblocking(m, rep)
     B.rule_handle_drop(m, rep, 'R5h')
-    B.rule_sentinel(m, rep)
+    B.rule_sentinel(m, rep, count=False)
